@@ -36,8 +36,8 @@ def main():
     rels = sorted(os.path.relpath(p, HERE) for p in glob.glob(os.path.join(HERE, "selftest", "regress", "*.diff")) + glob.glob(os.path.join(HERE, "seeded", "*", "patch.diff")))
     rels = [r for r in rels if only in r]
     path = os.path.join(HERE, "selftest", "expect.json")
-    exp = json.load(open(path)) if os.path.exists(path) else {"patches": {}}
-    with ThreadPoolExecutor(max_workers=8) as ex:
+    exp = json.load(open(path)) if os.path.exists(path) and only else {"patches": {}}   # a full run starts afresh (drops removed patches)
+    with ThreadPoolExecutor(max_workers=int(os.environ.get('VCHECK_JOBS', '8'))) as ex:
         for rel, out in ex.map(one, rels):
             if out is None:
                 print("%-50s does not apply" % rel)
